@@ -116,7 +116,26 @@ pub fn partchild(opts: &Opts) -> i32 {
                     _ => rng.range(1, 500),
                 } as usize;
                 let v: Vec<u8> = (0..len).map(|j| (seed as usize + i as usize * 31 + j) as u8).collect();
-                let _ = store.insert(&k, &v);
+                // every way of writing a value: each has its own hand-off of the replaced extent
+                match rng.below(5) {
+                    0 | 1 => {
+                        let _ = store.insert(&k, &v);
+                    }
+                    2 => {
+                        let _ = store.insert_bytes(&k, bytes::Bytes::from(v));
+                    }
+                    3 => {
+                        let _ = store.insert_bytes_with_timestamp(&k, bytes::Bytes::from(v), None);
+                    }
+                    _ => match store.get(&k) {
+                        Ok(cur) => {
+                            let _ = store.compare_and_swap(&k, &cur, &v);
+                        }
+                        Err(_) => {
+                            let _ = store.insert_with_timestamp(&k, &v, None);
+                        }
+                    },
+                }
             }
             55..=74 => {
                 let _ = store.delete(&k);
